@@ -16,6 +16,7 @@ static Verdict runCase(const EncCase& c, Info& info)
     lib::Encoder enc;
     enc.setDeviceId(c.dev);
     enc.setStreamId(c.stream);
+    runPriorCalls(enc, c);
     auto frames = enc.encode(batch.begin(), batch.end(), lib::DataContext{c.minB, c.maxB});
 
     // parse: (frame message type, [(seg, len)]) for frames that hold at least one message
@@ -73,6 +74,8 @@ static Verdict runCase(const EncCase& c, Info& info)
     for (size_t i = 1; i < lp.size(); ++i)
         if (16 + lp[i - 1].length > c.maxB - 8)
             afterLast = true;
+    if (!c.prior.empty())
+        info.tag("encoder_had_earlier_calls");
     if (k.segmented)
         info.tag("segmented");
     if (k.aggregated)
@@ -121,7 +124,7 @@ int main(int argc, char** argv)
         EncGenParams p;
         p.maxBatch = tier ? 40 : 12;
         p.boundaryWeight = 10;
-        return genEncCase(p);
+        return withPriorCalls(genEncCase(p), p);
     };
     prop.run = runCase;
     return pbtMain(argc, argv, prop);
